@@ -373,6 +373,142 @@ def runAll (p : Pat) (cfg : Cfg) (evs : List Event) : Eng × List (Event × List
 def matchesOf (p : Pat) (cfg : Cfg) (evs : List Event) : List Match :=
   ((runAll p cfg evs).2.map (·.2)).flatten
 
+/-! ## NFA level — `NfaCompiler::compile` and the generic interpreter `advance_run_shared`
+
+The step-level functions above are this interpreter specialised to the NFA that `compile` builds for a
+sequence of `Event` / `KleenePlus(Event)` steps (theorem `advanceN_compile`, Lemmas/Sase.lean). -/
+
+/-- `StateType` (without `Negation` / `And`, which the fragment never creates) -/
+inductive SType where
+  | start | normal | kleene | accept
+  deriving DecidableEq, Repr, Inhabited
+
+/-- `sase::State` -/
+structure NState where
+  stype : SType := .normal
+  ty : Option String := none
+  pred : Option Pred := none
+  alias : Option String := none
+  eps : List Nat := []
+  trans : List Nat := []
+  selfLoop : Bool := false
+  postponed : Option Pred := none
+  epsAccept : Bool := false
+  deriving DecidableEq, Repr, Inhabited
+
+/-- `Nfa::states` (`start_state` = 0) -/
+abbrev Nfa := List NState
+
+/-- `Nfa::add_transition` -/
+def addTrans (n : Nfa) (src dst : Nat) : Nfa := n.modify src fun s => { s with trans := s.trans ++ [dst] }
+
+/-- `Nfa::add_epsilon` -/
+def addEps (n : Nfa) (src dst : Nat) : Nfa := n.modify src fun s => { s with eps := s.eps ++ [dst] }
+
+/-- `compile_pattern` for `Event` and `KleenePlus(Event)`: new NFA and the pattern's end state. -/
+def compileStep (n : Nfa) (prev : Nat) (s : Step) : Nfa × Nat :=
+  let id := n.length
+  let n1 := addTrans (n ++ [{ ty := some s.ty, pred := s.pred, alias := s.alias }]) prev id
+  if s.kleene then
+    -- Kleene + self_loop, inconsistent predicate moved to `postponed_predicate`
+    let n2 := n1.modify id fun x => { x with stype := .kleene, selfLoop := true, pred := s.eager, postponed := s.postponed }
+    let n3 := addEps n2 id id
+    let cont := n3.length
+    (addEps (n3 ++ [({} : NState)]) id cont, cont)
+  else (n1, id)
+
+/-- the `Seq` arm: each step is compiled with the previous step's end state as `prev` -/
+def compileSteps (n : Nfa) (prev : Nat) : List Step → Nfa × Nat
+  | [] => (n, prev)
+  | s :: rest => compileSteps (compileStep n prev s).1 (compileStep n prev s).2 rest
+
+/-- `NfaCompiler::compile`: compile, `set_accept(end)`, pre-compute `has_epsilon_to_accept` -/
+def compile (p : Pat) : Nfa :=
+  let r := compileSteps [{ stype := .start }] 0 p.steps
+  let n := r.1.modify r.2 fun s => { s with stype := .accept }
+  n.map fun s => { s with epsAccept := s.eps.any fun i => (n[i]?.map (·.stype)) == some .accept }
+
+/-- `event_matches_state` -/
+def matchesN (s : NState) (e : Event) (caps : Caps) : Bool :=
+  (match s.ty with | some t => e.ty == t | none => true) &&
+  (match s.pred with | some q => evalPred q e caps | none => true)
+
+/-- the `for &next_id in &current_state.transitions` loop (first match wins); `none` = fell through.
+`Run.pos` holds `current_state` at this level. -/
+def transLoop (nfa : Nfa) (cfg : Cfg) (r : Run) (e : Event) : List Nat → Option Adv
+  | [] => none
+  | nid :: rest =>
+    match nfa[nid]? with
+    | none => none
+    | some nx =>
+      if matchesN nx e r.caps then
+        let r' := { r with pos := nid }.push e nx.alias
+        some (
+          if nx.stype == .accept then .complete r'.result
+          else if nx.stype == .kleene && nx.selfLoop then
+            if nx.epsAccept then .completeAndContinue r' r'.result
+            else
+              let n := r.kc.getD 0
+              .continue { r' with kc := some (if n ≥ cfg.maxKleene then n else n + 1) }
+          else .continue r')
+      else transLoop nfa cfg r e rest
+
+/-- inner loop of the epsilon arm: the transitions of an epsilon target -/
+def epsInner (nfa : Nfa) (r : Run) (e : Event) : List Nat → Option Adv
+  | [] => none
+  | nid :: rest =>
+    match nfa[nid]? with
+    | none => none
+    | some nx =>
+      if matchesN nx e r.caps then
+        let r' := { r with pos := nid }.push e nx.alias
+        some (if nx.stype == .accept then .complete r'.result else .continue r')
+      else epsInner nfa r e rest
+
+/-- the `for &eps_id in &current_state.epsilon_transitions` loop -/
+def epsLoop (nfa : Nfa) (r : Run) (e : Event) : List Nat → Adv
+  | [] => .noMatch
+  | eid :: rest =>
+    match nfa[eid]? with
+    | none => .noMatch
+    | some es =>
+      if es.stype == .accept then .complete r.result
+      else match epsInner nfa r e es.trans with
+        | some a => a
+        | none => epsLoop nfa r e rest
+
+/-- the KLEENE SELF-LOOP arm over an NFA state -/
+def selfLoopN (cur : NState) (cfg : Cfg) (r : Run) (e : Event) : Adv :=
+  if capFull cfg r then .continue r
+  else if cur.epsAccept && (match cur.postponed with | some q => !evalPred q e r.caps | none => false) then .noMatch
+  else if cur.epsAccept then .completeAndContinue (r.push e cur.alias) (r.push e cur.alias).result
+  else .continue { r.push e cur.alias with kc := some (r.kc.getD 0 + 1) }
+
+/-- `advance_run_shared` over an arbitrary NFA of `Start`/`Normal`/`Kleene`/`Accept` states -/
+def advanceN (nfa : Nfa) (cfg : Cfg) (r : Run) (e : Event) : Adv :=
+  match nfa[r.pos]? with
+  | none => .noMatch
+  | some cur =>
+    if cur.stype == .accept then .complete r.result
+    else if cur.stype == .kleene && cur.selfLoop && matchesN cur e r.caps then selfLoopN cur cfg r e
+    else match transLoop nfa cfg r e cur.trans with
+      | some a => a
+      | none => epsLoop nfa r e cur.eps
+
+/-- `try_start_run_shared` over the NFA: first transition of the start state whose target matches -/
+def tryStartN (nfa : Nfa) (e : Event) : Option Run :=
+  match nfa[0]? with
+  | none => none
+  | some st => st.trans.findSome? fun nid =>
+      match nfa[nid]? with
+      | some nx => if matchesN nx e [] then
+          some (({ pos := nid, stack := [], caps := [], invalidated := false, kc := none } : Run).push e nx.alias) else none
+      | none => none
+
+/-- NFA id of step `i`'s event state -/
+def sid (steps : List Step) (i : Nat) : Nat := 1 + i + (steps.take i).countP (·.kleene)
+
+
 /-! ## C01 — `Genuine`, the statement as a decidable predicate (also the judge) -/
 
 /-- the captures a stack determines: every aliased entry binds its alias, later entries win. -/
